@@ -80,7 +80,7 @@ let ghost dfin = final(dst)@;"""),
     assert(self.seq() =~= s0.skip(k0 + cnt));
     assert(s0.subrange(0, k0) + (s0.subrange(k0, k0 + cnt) + final(dst)@) =~= s0.subrange(0, k0 + cnt) + final(dst)@);
 }"""),
-            ("before", "Ok(())", """proof {
+            ("before_tail", "", """proof {
     assert((*old(self)).seq().subrange(0, old(dst)@.len() as int) + final(dst)@ =~= (*old(self)).seq().take(old(dst)@.len() as int)) by {
         assert(final(dst)@.len() == dst@.len());
     }
